@@ -45,7 +45,9 @@ func c15classify(t *gen.T, seen map[*gen.T]bool) c15class {
 	switch t.K {
 	case gen.KUint, gen.KUint8, gen.KUint16, gen.KUint32, gen.KUint64:
 		return c15Unsupported
-	case gen.KUintptr, gen.KComplex64, gen.KComplex128, gen.KIface, gen.KChan, gen.KFunc, gen.KUnsafePtr, gen.KArray, gen.KMapIntKey:
+	case gen.KMapIntKey:
+		return c15Unsupported // Avro map keys are strings (D17)
+	case gen.KUintptr, gen.KComplex64, gen.KComplex128, gen.KIface, gen.KChan, gen.KFunc, gen.KUnsafePtr, gen.KArray:
 		return c15Unspecified
 	case gen.KSlice, gen.KMap, gen.KPtr:
 		if t.K == gen.KSlice && t.Elem.K == gen.KUint8 {
@@ -141,11 +143,16 @@ func c15one(c *core.Ctx, t *gen.T, label string, recursive bool) {
 		return
 	}
 	cls := c15classify(t, map[*gen.T]bool{})
+	if t.HasDupNames() {
+		// two fields of one name: a record cannot have that (field names are unique within an Avro record)
+		cls = c15Unsupported
+		c.Count("class.duplicate-field-names", 1)
+	}
 	switch cls {
 	case c15Unsupported:
 		c.Count("class.unsupported", 1)
 		if r1.err == nil {
-			c.Violate("mapping", fmt.Sprintf("type %s contains an unsigned integer the schema cannot express, yet a schema was returned", label), map[string]any{"type": label})
+			c.Violate("mapping", fmt.Sprintf("type %s contains something a schema cannot express (an unsigned integer, a map whose keys are not strings, two fields of one name), yet a schema was returned: %s", label, trunc(libToIR(r1.s).JSON(), 300)), map[string]any{"type": label})
 		}
 		return
 	case c15Unspecified:
@@ -455,7 +462,7 @@ func runC15(c *core.Ctx, i int) {
 		r := c.Rand(i, 0)
 		c15refusedThenRegistered(c, r)
 		for k := 0; k < 16; k++ {
-			o := gen.TypeOpts{MaxDepth: 1 + r.IntN(4), MaxFields: 1 + r.IntN(7), WeirdNames: r.IntN(3) == 0, AllKinds: r.IntN(2) == 0}
+			o := gen.TypeOpts{MaxDepth: 1 + r.IntN(4), MaxFields: 1 + r.IntN(7), WeirdNames: r.IntN(3) == 0, AllKinds: r.IntN(2) == 0, DupNames: r.IntN(3) == 0}
 			t := gen.GenStruct(r, o)
 			c15one(c, t, t.String(), false)
 		}
